@@ -100,6 +100,11 @@ func c04Grid(seed uint64, tier string) []a2cfg {
 		out = append(out, a2cfg{[]int{0, 1, 2}[i%3], 0x10, r.bytes(r.intn(20)), r.bytes(8 + r.intn(8)), c.t, c.m, 32, c.p})
 		out = append(out, a2cfg{0, 0x13, r.bytes(r.intn(20)), r.bytes(8 + r.intn(8)), c.t, c.m, 32, c.p})
 	}
+	// a history of large memories going down and up again (storage kept between derivations must not show through)
+	for _, m := range []uint32{16384, 8192, 12288, 8200, 20000, 9000} {
+		out = append(out, a2cfg{2, 0x13, r.bytes(8), r.bytes(16), 1, m, 32, 1})
+		out = append(out, a2cfg{1, 0x13, r.bytes(8), r.bytes(16), 1, m + 4, 32, 2})
+	}
 	for _, kl := range []uint32{159, 160, 161, 191, 192, 193, 223, 224, 225, 255, 256, 257, 288, 512, 1000, 1024, 1056} {
 		out = append(out, a2cfg{int(kl) % 3, 0x13, r.bytes(r.intn(20)), r.bytes(8 + r.intn(8)), 1, 8, kl, 1})
 	}
@@ -408,7 +413,14 @@ func c04Strings(rep *report, m *modelProc, r *rng, tier string) {
 					if which == v.ver {
 						want = "nil"
 					}
-					for _, via := range []string{"argon2.Check", "crypt.Check"} {
+					for vi, via := range []string{"argon2.Check", "crypt.Check"} {
+						// a rejected string in between (an error path must leave nothing behind): the same hash with a surplus
+						// fragment, or with an explicit version and a broken cost group
+						if vi == 0 {
+							schemeByName("argon2").check(h+"$surplus", string(pw))
+						} else {
+							schemeByName("argon2").check(fmt.Sprintf("$%s$v=19$m=8,t=1$%s$%s", name, enc.EncodeToString(salt), keys[which]), string(pw))
+						}
 						var err error
 						if via == "argon2.Check" {
 							err = schemeByName("argon2").check(h, string(pw))
